@@ -355,7 +355,7 @@ func TestP2Fractions(t *testing.T) {
 	rec := ev.New("C20", "fractions")
 	defer rec.Finish(t)
 	rec.Rule("finite fractional deltas |x| < 10^6: k/q with q <= 2000, decimals with 1-9 fractional digits, midpoints between neighbouring multiples of 1/107 (worst case of the approximation), arbitrary floats; 20 values per font. The independent decoder must read each within 1/214 and find the form `p q div` (denominator non-zero); type1.Read must agree within 1/214. Non-trivial: value is not an integer; distinct by value.")
-	ev.SetupRapid(3000, 200000)
+	ev.SetupRapid(15000, 1000000)
 	rapid.Check(t, func(t *rapid.T) {
 		c := &fracCase{}
 		for i := 0; i < 20; i++ {
@@ -431,7 +431,7 @@ func TestP3Drift(t *testing.T) {
 	defer rec.Finish(t)
 	maxSegs := ev.Total(2000, 10000)
 	rec.Rule(fmt.Sprintf("paths of 1..%d segments (random walk with fractional steps of 1-3 decimals or k/q; moves, h/v/general lines, rrcurveto/hvcurveto/vhcurveto shapes, closepaths); every absolute coordinate decoded by the independent decoder (no string-length limit) and, when the charstring is <= 65,000 bytes, by type1.Read must stay within 1/214 (+2e-6 for the encoder's axis snapping) of the requested coordinate, whatever the path length. Non-trivial: path of >= 100 segments with non-integer coordinates; distinct by path.", maxSegs))
-	ev.SetupRapid(600, 16000)
+	ev.SetupRapid(1500, 48000)
 	rapid.Check(t, func(t *rapid.T) {
 		n := rapid.IntRange(1, maxSegs).Draw(t, "segments")
 		if rapid.IntRange(0, 3).Draw(t, "short") == 0 {
